@@ -283,6 +283,10 @@ pub fn op_hand(mode: &str, np: usize, script: &str) -> String {
             let mut env = Env { cmds: cmd_rx, peer: ours, rbuf: vec![], out: vec![], terminated: false, progress: false };
             let mut files: HashMap<String, Vec<u8>> = HashMap::new();
             let mut results: Vec<String> = vec![];
+            // let the task start (and arm its timers) at virtual time 0
+            for _ in 0..6 {
+                tokio::task::yield_now().await;
+            }
             for ev in script_owned.iter() {
                 let (body, reply_tok) = match ev.split_once('>') {
                     Some((b, r)) => (b, r),
